@@ -64,9 +64,9 @@ fn c06_configs(tier: Tier) -> Vec<TcpCfg> {
         c.reader = Pace::Stepped;
     });
     // half close with reply
-    add("halfclose-t2-s2-D1", &|c| {
+    add(if tier == Tier::Thorough { "halfclose-t2-s2-D1" } else { "halfclose-t2-s1-D1" }, &|c| {
         c.c_chunks = vec![2];
-        c.s_bytes = 2;
+        c.s_bytes = tier.pick(1, 2);
     });
     // both directions at once through owned halves
     add("concurrent-t1-s1-D1", &|c| {
@@ -81,11 +81,11 @@ fn c06_configs(tier: Tier) -> Vec<TcpCfg> {
         c.mode = Mode::DropClose;
     });
     // segments larger than the free receive room are accepted partially
-    add("partial-mss4-rcv3-t5-D1", &|c| {
+    add(if tier == Tier::Thorough { "partial-mss4-rcv3-t5-D1" } else { "partial-mss4-rcv3-t4-D1" }, &|c| {
         c.mtu = 44;
         c.send_cap = 5;
         c.recv_cap = 3;
-        c.c_chunks = vec![5];
+        c.c_chunks = vec![tier.pick(4, 5)];
         c.reader_buf = 2;
         c.reader = Pace::Stepped;
     });
@@ -238,11 +238,11 @@ fn c16_configs(tier: Tier) -> Vec<TcpCfg> {
         c.reader = Pace::Late;
         c.reader_buf = 1;
     });
-    add("mss2-snd5-rcv3-t5-stepped", &|c| {
+    add(if tier == Tier::Thorough { "mss2-snd5-rcv3-t5-stepped" } else { "mss2-snd5-rcv3-t4-stepped" }, &|c| {
         c.mtu = 42;
         c.send_cap = 5;
         c.recv_cap = 3;
-        c.c_chunks = vec![5];
+        c.c_chunks = vec![tier.pick(4, 5)];
         c.reader = Pace::Stepped;
         c.reader_buf = 2;
         c.drops = 0;
